@@ -282,10 +282,13 @@ theorem lstep_inv {blob : Bool} {data : Bytes} {chunkSz : Nat} {s : LState} (i :
       | dropped => exact ⟨h1, h2, h3, h4, by intro r hr; simp at hr; subst hr; exact gerr, app _ gerr⟩
       | served => exact ⟨h1, h2, h3, h4, by intro r hr; simp at hr; subst hr; exact gerr, app _ gerr⟩
       | waiting =>
-        have g : Good data (if s.blob = true then fetchBlob s.chunkSz s.data s.advLen (pathCuts s.hops cuts)
+        have g : Good data (if s.blob = true then
+              (if s.hops = 0 then .err else fetchBlob s.chunkSz s.data s.advLen (pathCuts s.hops cuts))
             else fetchItem s.chunkSz s.data (pathCuts s.hops cuts)) := by
           split
-          · rw [h2]; exact fetchBlob_good ..
+          · split
+            · exact gerr
+            · rw [h2]; exact fetchBlob_good ..
           · rw [h2]; exact fetchItem_good ..
         exact ⟨h1, h2, h3, h4, by intro r hr; simp at hr; subst hr; exact g, app _ g⟩
 
